@@ -190,6 +190,38 @@ func c10(c *core.Ctx) {
 		})
 	}
 	c.Floor("C10.R1", n, 9)
+	// converse for the explicit Remove(id): the counters go down only if an element really left the queue
+	for _, be := range []struct{ pkg, tag string }{{memQ, "mem"}, {redQ, "redis"}} {
+		rmf := p.Func(be.pkg, "(*Queue).Remove")
+		isUnlink := func(in ssa.Instruction) bool {
+			ci, ok := in.(ssa.CallInstruction)
+			if !ok {
+				return false
+			}
+			if ssax.ResolveCallee(ci.Common()).Name == "(*container/list.List).Remove" {
+				return true
+			}
+			if ci.Common().IsInvoke() && len(ci.Common().Args) > 0 {
+				if cst, ok := ci.Common().Args[0].(*ssa.Const); ok && cst.Value != nil && cst.Value.Kind() == constant.String && constant.StringVal(cst.Value) == "lrem" {
+					return true
+				}
+			}
+			return false
+		}
+		k := 0
+		for _, cs := range ssax.Calls(rmf, false, func(ce ssax.Callee) bool {
+			return ce.Kind == "invoke" && (ce.Name == "("+notifierIface+").NotifyMsgQueueAdded" || ce.Name == "("+notifierIface+").NotifyInflightAdded")
+		}) {
+			d, isC := constInt(ssax.Args(cs.Instr)[0])
+			if !isC || d >= 0 {
+				continue
+			}
+			k++
+			_, phantom := ssax.PathQuery{Fn: rmf, To: ssax.InstrIs(cs.Instr), Avoid: isUnlink}.Find()
+			c.Check(!phantom, "C10.R1", fmt.Sprintf("%s|Remove|counted-only-if-unlinked#%d", be.tag, k), ipos(c, cs.Instr), "the counters go down only after an element was unlinked", "Remove(id) decrements the queue / in-flight counters although no element was removed (unknown or repeated packet id): the gauges drift below the true contents")
+		}
+		c.Check(k >= 1, "C10.R1", be.tag+"|Remove|counted", fpos(c, rmf), "Remove reports the removal", "Remove(id) no longer reports the removal to the notifier")
+	}
 
 	// ---- R3 / R4 shared with C01, C12, C13
 	memQueueNoWalkAfterUnlink(c, "C10.R3")
